@@ -8,6 +8,8 @@
 import Hy.Proofs.Pnq
 import Hy.Proofs.BbrCore
 import Hy.Model.BbrProfiles
+import Hy.Proofs.BbrFilter
+import Hy.Proofs.BbrSampler
 import Hy.Gen.C12Sites
 set_option linter.unusedSimpArgs false
 namespace Hy.Props.C12
@@ -91,13 +93,13 @@ theorem offset_negative_stale :
   decide
 
 /-- **pnq_inv** holds initially … -/
-theorem pnq_inv_init (n : Nat) : Inv (new n) := new_inv n
+theorem pnq_inv_init {α : Type} [Inhabited α] (n : Nat) : Inv (new n : PNQ α) := new_inv n
 
 /-- … and is preserved by Emplace / GetEntry / Remove / RemoveUpTo (packet numbers ≥ −1, i.e.
     any QUIC packet number or the invalid marker; gaps of any size), none of which panics.
     `Inv`: ring well-formed; `numberOfPresentEntries` = number of present wrappers; non-empty ⇒
     front wrapper present and `firstPacket ≥ 0`; empty ⇒ `firstPacket = invalidPacketNumber`. -/
-theorem pnq_inv (q : PNQ) (h : Inv q) (op : Op) (hw : op.wellFormed) :
+theorem pnq_inv {α : Type} [Inhabited α] (q : PNQ α) (h : Inv q) (op : Op α) (hw : op.wellFormed) :
     ∃ q' r, q.step op = Res.ok (q', r) ∧ Inv q' := by
   cases op with
   | emplace pn v =>
@@ -114,20 +116,20 @@ theorem pnq_inv (q : PNQ) (h : Inv q) (op : Op) (hw : op.wellFormed) :
     exact ⟨q', .unit, by simp [PNQ.step, h1], h2⟩
 
 /-- `Op.wellFormed` is met by every QUIC packet number and by the invalid marker −1 -/
-example : (Op.emplace 0 (some 7)).wellFormed ∧ (Op.emplace (-1) none).wellFormed ∧ (Op.removeUpTo (-5)).wellFormed := by
+example : (Op.emplace 0 (some 7) : Op Nat).wellFormed ∧ (Op.emplace (-1) none : Op Nat).wellFormed ∧ (Op.removeUpTo (-5) : Op Nat).wellFormed := by
   simp [Op.wellFormed]
 
 /-- **pnq_no_panic**: from `newPacketNumberIndexedQueue(n)` (any initial capacity), every
     sequence of operations with arbitrary packet numbers ≥ −1 (in any order, with gaps,
     duplicates, numbers restarting from 0 as the three QUIC number spaces do) runs to the end
     without reaching a ring panic, an index fault or the end of a loop's fuel. -/
-theorem pnq_no_panic (n : Nat) (ops : List Op) (hw : ∀ op ∈ ops, op.wellFormed) :
-    ∃ q', (new n).run ops = Res.ok q' ∧ Inv q' := by
+theorem pnq_no_panic {α : Type} [Inhabited α] (n : Nat) (ops : List (Op α)) (hw : ∀ op ∈ ops, op.wellFormed) :
+    ∃ q', (new n : PNQ α).run ops = Res.ok q' ∧ Inv q' := by
   obtain ⟨q', _, _, h2, h3⟩ := runG_spec ops (new n) (-1) (new_ginv n) hw
   exact ⟨q', h3, h2.1⟩
 
 /-- the hypotheses are met by a run with a gap, a number-space restart and pruning -/
-example : (new 2).run [.emplace 0 (some 10), .emplace 1 (some 11), .emplace 5 (some 15), .emplace 0 (some 99),
+example : (new 2 : PNQ Nat).run [.emplace 0 (some 10), .emplace 1 (some 11), .emplace 5 (some 15), .emplace 0 (some 99),
       .remove 0, .getEntry 5, .removeUpTo 4, .removeUpTo 9] =
     Res.ok { entries := { ring := List.replicate 8 ⟨false, 0⟩, head := 6, tail := 6, full := false },
              present := 0, first := -1 } := by decide
@@ -136,8 +138,8 @@ example : (new 2).run [.emplace 0 (some 10), .emplace 1 (some 11), .emplace 5 (s
     use is at most `last − k + 1` (0 if that is negative), where `last` is the last packet
     number `Emplace` accepted.  With the sender's `leastUnacked` as `k`, the bookkeeping is
     bounded by the packet-number span still outstanding. -/
-theorem slots_bound (n : Nat) (ops : List Op) (hw : ∀ op ∈ ops, op.wellFormed) (k : Int) :
-    ∃ q last q', runG (new n, -1) ops = Res.ok (q, last) ∧ q.removeUpTo k = Res.ok q' ∧
+theorem slots_bound {α : Type} [Inhabited α] (n : Nat) (ops : List (Op α)) (hw : ∀ op ∈ ops, op.wellFormed) (k : Int) :
+    ∃ q last q', runG ((new n : PNQ α), -1) ops = Res.ok (q, last) ∧ q.removeUpTo k = Res.ok q' ∧
       (q'.slotsUsed : Int) ≤ max 0 (last - k + 1) := by
   obtain ⟨q, last, h1, h2, _⟩ := runG_spec ops (new n) (-1) (new_ginv n) hw
   obtain ⟨q', h3, _, h4⟩ := removeUpTo_bound h2 k
@@ -145,8 +147,8 @@ theorem slots_bound (n : Nat) (ops : List Op) (hw : ∀ op ∈ ops, op.wellForme
 
 /-- between prunings the slots in use never exceed the span first..last of accepted numbers:
     `slotsUsed = LastPacket − FirstPacket + 1` whenever the queue is non-empty -/
-theorem slots_span (n : Nat) (ops : List Op) (hw : ∀ op ∈ ops, op.wellFormed) :
-    ∃ q last, runG (new n, -1) ops = Res.ok (q, last) ∧
+theorem slots_span {α : Type} [Inhabited α] (n : Nat) (ops : List (Op α)) (hw : ∀ op ∈ ops, op.wellFormed) :
+    ∃ q last, runG ((new n : PNQ α), -1) ops = Res.ok (q, last) ∧
       (q.slotsUsed = 0 ∨ ((q.slotsUsed : Int) = last - q.first + 1 ∧ 0 ≤ q.first)) := by
   obtain ⟨q, last, h1, h2, _⟩ := runG_spec ops (new n) (-1) (new_ginv n) hw
   refine ⟨q, last, h1, ?_⟩
@@ -290,5 +292,109 @@ theorem progress (cfg : Bbr.Cfg) (mds : Nat) (hm : 0 < mds) (evs : List Bbr.Even
 /-- the pacer's zero-bandwidth fault that `minBps` exists to prevent, as a fact of the model -/
 theorem pacer_zero_bandwidth_faults :
     ({ budgetAtLastSent := 0, mds := 1280, last := 5 } : Bbr.Pacer).timeUntilSend 0 = .panic := by decide
+
+/-! ## (c) bandwidth sampler and windowed filter — Hy.Model.BbrSampler = bandwidth_sampler.go +
+    windowed_filter.go with Go's wrapping int64/uint64 arithmetic; compared field by field with the
+    real sampler after every call of every simulated connection. -/
+
+open Hy.Sampler in
+/-- **windowed_filter_spec** (max filter by `key`; a min filter is the same statement for the
+    negated key).  From the constructor state, after feeding any non-empty list of samples at
+    non-decreasing uint64 times, the best estimate (i) is one of the samples fed, (ii) dominates
+    every sample fed after it — it is the maximum of the samples from its own position on, in
+    particular ≥ the newest sample — and (iii) is fresh: not older than the window length. -/
+theorem windowed_filter_spec {V} (key : V → Int) (kz : Int) (zero : V) (hz : key zero = kz) (W : Nat)
+    (xs : List (V × Nat)) (hne : xs ≠ []) (ht : TimesOk 0 xs) :
+    let f := WFilter.feed key kz (WFilter.new zero W) xs
+    ∃ pre post, xs = pre ++ (f.e0.1, f.e0.2) :: post ∧ (∀ x ∈ post, key x.1 ≤ key f.e0.1) ∧
+      (xs.getLast hne).2 - f.e0.2 ≤ W := by
+  intro f
+  obtain ⟨tl, hi⟩ := Sampler.windowed_filter_inv key kz zero hz W xs hne ht
+  obtain ⟨⟨pre, post, hsplit, hdom⟩, _⟩ := hi.g0
+  have hl := hi.lastT
+  rw [List.getLast?_eq_some_getLast hne] at hl
+  simp at hl
+  refine ⟨pre, post, hsplit, hdom, ?_⟩
+  rw [hl]; exact hi.fresh
+
+/-- the hypotheses are met by the round counts the sender uses as times -/
+example : Sampler.TimesOk 0 [((800000 : Nat), 1), (900000, 1), (700000, 2), (100, 13)] := by
+  simp [Sampler.TimesOk]
+
+/-- "returns THE maximum of the samples inside its window" is false for this algorithm (three
+    estimates only): with window 10 the samples 10@0, 9@2, 5@3, 1@11 leave best = 5@3 although
+    9@2 is still inside the window — a `decide`d fact, so the exact-window-max reading of the
+    specification is recorded as not holding (`windowed_filter_spec` is what does hold). -/
+theorem windowed_filter_not_exact_max :
+    (Sampler.WFilter.feed (fun n : Nat => (n : Int)) 0 (Sampler.WFilter.new 0 10) [(10, 0), (9, 2), (5, 3), (1, 11)]).e0
+      = (5, 3) := Sampler.windowed_filter_not_exact_max
+
+/-- **sampler_no_panic**: from `newBandwidthSampler` with any window length and queue sizes and any
+    profile switches (overestimate avoidance on/off, reduce-extra-acked on/off), EVERY sequence of the
+    calls the sender makes — OnPacketSent, OnCongestionEvent (any ack time, any acked / lost lists:
+    unknown, duplicate or unordered packet numbers, both lists empty, any bandwidths and round
+    counts), OnAppLimited, ResetMaxAckHeightTracker, RemoveObsoletePackets(any number) — runs to
+    the end without reaching a panic site: every access to the packet map and to the A0-candidate
+    ring is guarded, both BandwidthFromDelta divisors are non-zero, the `lostPackets[len-1]` /
+    `ackedPackets[len-1]` indexes are only evaluated on non-empty lists.
+    Hypotheses (`Call.wellFormed`): packet numbers of sent packets are ≥ −1 and send times are int64
+    values (`monotime.Time`); nothing is assumed about sizes, ack times or event contents. -/
+theorem sampler_no_panic (w m c : Nat) (oa red : Bool) (cs : List Sampler.Call) (hw : ∀ x ∈ cs, x.wellFormed) :
+    let b0 := (if oa then (Sampler.Sampler.new w m c).enableOverestimateAvoidance else Sampler.Sampler.new w m c).setReduceExtraAcked red
+    ∃ b' last', b0.runCalls cs = .ok b' ∧ Sampler.SInv b' last' := by
+  intro b0
+  have h0 : Sampler.SInv b0 (-1) := by
+    apply Sampler.setReduce_sinv
+    split
+    · exact Sampler.enableOA_sinv _ _ (Sampler.new_sinv w m c)
+    · exact Sampler.new_sinv w m c
+  exact Sampler.sampler_no_panic_run cs b0 (-1) h0 hw
+
+/-- a call sequence with a number-space restart, an unknown packet, a loss-only event and an empty event
+    meets the hypotheses -/
+example : ∀ x ∈ ([.sent 1000 0 1280 1280 true, .sent 2000 1 1280 2560 true, .sent 3000 0 1280 3840 true,
+      .event 9000 [(1, 1280), (77, 100)] [(0, 1280)] 0 Sampler.infBandwidth 1, .event 9500 [] [(5, 10)] 0 0 1,
+      .event 9600 [] [] 0 0 1, .appLimited, .removeObsolete 1] : List Sampler.Call), x.wellFormed := by
+  simp [Sampler.Call.wellFormed, Sampler.inI64, Sampler.two63]
+
+/-- the int64 hypothesis on send times is needed in the model (whose fields are unbounded integers):
+    two send times exactly 2^64 ns apart make the send-rate divisor `Bandwidth(Δt)` zero.  In Go the
+    field is an int64, so this records a type invariant, not a restriction of real inputs. -/
+theorem sampler_times_must_be_int64 :
+    (Sampler.Sampler.new 10 4 4).runCalls
+      [.sent 1 0 1200 0 true, .sent 18446744073709551617 1 1200 1200 true, .event 5 [(1, 1200)] [] 0 0 0]
+      = .panic := Sampler.times_must_be_int64
+
+/-- **sampler_entries_bounded**: through layer (a)'s `slots_bound` — run any call sequence, then
+    RemoveObsoletePackets(k): the per-packet records in use number at most `last − k + 1`, where
+    `last` (the last packet number the map accepted) never exceeds the largest packet number
+    announced by OnPacketSent. -/
+theorem sampler_entries_bounded (w m c : Nat) (cs : List Sampler.Call) (hw : ∀ x ∈ cs, x.wellFormed) (k : Int) :
+    ∃ b last b', (Sampler.Sampler.new w m c).runCalls cs = .ok b ∧ last ≤ Sampler.maxSent cs ∧
+      b.removeObsoletePackets k = .ok b' ∧ (b'.map.slotsUsed : Int) ≤ max 0 (last - k + 1) := by
+  obtain ⟨b, last, h1, h2, h3⟩ := Sampler.ghost_le_maxSent w m c cs hw
+  obtain ⟨b', h4, _, h5⟩ := Sampler.removeObsolete_bound b last h2 k
+  exact ⟨b, last, b', h1, h3, h4, h5⟩
+
+/-- **sample_bandwidth_bounded**: the bandwidth of a per-packet sample is a uint64 (≥ 0 by type),
+    is min(send rate, ack rate) and hence never above the send rate measured for that packet -/
+theorem sample_bandwidth_bounded (b : Sampler.Sampler) (t pn : Int) (b' : Sampler.Sampler) (s : Sampler.BandwidthSample)
+    (h : b.onPacketAcknowledged t pn = .ok (b', s)) : s.bandwidth ≤ s.sendRate ∧ s.bandwidth ≤ Sampler.maxU64 :=
+  Sampler.sample_bandwidth_le_sendRate b t pn b' s h
+
+/-- the rates are the truncating quotients of the definition: without wrap-around
+    BandwidthFromDelta(bytes, Δt) = bytes·10^9/Δt·8 bits per second -/
+theorem rate_definition (bytes delta : Nat) (hd : 0 < delta) (hd2 : delta < 2^63)
+    (hb : bytes * 1000000000 < 2^64) (hr : bytes * 1000000000 / delta * 8 < 2^64) :
+    Sampler.bandwidthFromDelta (bytes : Int) (delta : Int) = .ok (bytes * 1000000000 / delta * 8) :=
+  Sampler.bandwidthFromDelta_exact bytes delta hd hd2 hb hr
+
+/-- e.g. 125 000 bytes in 100 ms are 10 Mbit/s -/
+example : Sampler.bandwidthFromDelta 125000 100000000 = .ok 10000000 := by decide
+
+/-! `a0Candidates` / recent-ack bookkeeping: the recent ack points are two fixed slots; the number of
+    A0 candidates has no bound proved (one is pushed per aggregation epoch start, they are pruned
+    only when an acked packet's sample chooses its A0 point) — its maximum is MEASURED by the harness
+    (evidence note `max_a0_candidates`). -/
 
 end Hy.Props.C12
